@@ -307,6 +307,13 @@ func (p *prov) load(addr ssa.Value, d int) string {
 				}
 			}
 		}
+		// a field of a carrier — the struct a closure's captured variables were turned into when the closure became a
+		// method value (`dump.Range((&restorer{seqNoMap: m, offsets: o}).restore)`): what was put there when it was built
+		if par, ok := a.X.(*ssa.Parameter); ok && par.Parent() != nil && par.Parent().Signature.Recv() != nil && par.Parent().Params[0] == par {
+			if sv, isCarrier := p.w.carrierField(fieldOfAddr(a)); isCarrier {
+				return p.origin(sv, d+1)
+			}
+		}
 		return p.origin(a.X, d+1) + fieldSeg(a.X.Type(), a.Field)
 	case *ssa.IndexAddr:
 		return p.origin(a.X, d+1) + "[" + p.origin(a.Index, d+1) + "]"
@@ -839,4 +846,79 @@ func argOfVParam(cc *ssa.CallCommon, callee *ssa.Function, v vparam) ssa.Value {
 	}
 	tab, _ := allocTable(al)
 	return tab[v.field().Name()]
+}
+
+// carrierField: f is a field of a carrier struct — an unexported struct of the module that is built at exactly one place,
+// by a literal whose address goes nowhere but into method values and method calls of that struct (never stored,
+// returned or handed to anything else), each field set once while it is built. Returns what f was set to there.
+var carrierCache = map[*types.Var]ssa.Value{}
+var carrierKnown = map[*types.Var]bool{}
+
+func (w *World) carrierField(f *types.Var) (ssa.Value, bool) {
+	if f == nil || f.Exported() || f.Pkg() == nil || !strings.HasPrefix(f.Pkg().Path(), modPath) {
+		return nil, false
+	}
+	if carrierKnown[f] {
+		v := carrierCache[f]
+		return v, v != nil
+	}
+	carrierKnown[f] = true
+	stores := w.fieldStores(f)
+	if len(stores) != 1 {
+		return nil, false
+	}
+	al := rootAlloc(stores[0].Store.Addr)
+	if al == nil {
+		return nil, false
+	}
+	if fa, ok := stores[0].Store.Addr.(*ssa.FieldAddr); !ok || fa.X != ssa.Value(al) {
+		return nil, false
+	}
+	T := al.Type().(*types.Pointer).Elem()
+	named, ok := types.Unalias(T).(*types.Named)
+	if !ok || named.Obj().Exported() {
+		return nil, false
+	}
+	// the only literal of that type in the module
+	n := 0
+	for _, fn := range w.ModFuncs {
+		allInstrs(fn, func(in ssa.Instruction) {
+			if a2, isAl := in.(*ssa.Alloc); isAl && types.Identical(a2.Type().(*types.Pointer).Elem(), T) {
+				n++
+			}
+		})
+	}
+	if n != 1 {
+		return nil, false
+	}
+	for _, r := range *al.Referrers() {
+		switch x := r.(type) {
+		case *ssa.FieldAddr:
+			for _, rr := range *x.Referrers() {
+				if st, isSt := rr.(*ssa.Store); !isSt || st.Addr != ssa.Value(x) {
+					return nil, false
+				}
+			}
+		case *ssa.MakeClosure:
+			fnc, isF := x.Fn.(*ssa.Function)
+			if !isF || !strings.HasSuffix(fnc.Name(), "$bound") {
+				return nil, false
+			}
+		case *ssa.Call:
+			cal := x.Common().StaticCallee()
+			if cal == nil || cal.Signature.Recv() == nil || len(x.Common().Args) == 0 || x.Common().Args[0] != ssa.Value(al) {
+				return nil, false
+			}
+			for _, a := range x.Common().Args[1:] {
+				if a == ssa.Value(al) {
+					return nil, false
+				}
+			}
+		case *ssa.DebugRef:
+		default:
+			return nil, false
+		}
+	}
+	carrierCache[f] = stores[0].Store.Val
+	return stores[0].Store.Val, true
 }
